@@ -2,6 +2,7 @@ import CarModel.Driver.Scan
 import CarModel.Driver.Idx
 import CarModel.Driver.Ops
 import CarModel.Driver.Read
+import CarModel.Driver.Walk
 namespace Car.Driver
 
 structure DState where
@@ -34,6 +35,7 @@ def step (st : DState) (line : String) : DState × String × String :=
       | some se => let r := famOp se fam kv; ({ st with sess := some r.1 }, r.2.1, r.2.2)
     else if fam == "scan" then let r := famScan H kv; (st, r.1, r.2)
     else if fam == "mut" then let r := famMut H kv; (st, r.1, r.2)
+    else if fam == "walk" then let r := famWalk H kv; (st, r.1, r.2)
     else if fam == "idx" then let r := famIdx kv; (st, r.1, r.2)
     else (st, "bad-op", "")
 
